@@ -190,6 +190,9 @@ def gen(seed, profile='general', big=False):
         items, weights = zip(*w.items()) if isinstance(w, dict) else (w, None)
         return rng.choices(items, weights)[0] if weights else rng.choice(items)
 
+    monitor = P.get('monitor', 'light')
+    if monitor == 'light' and rng.random() < P.get('real_share', 0.07):
+        monitor = 'real'        # the real per-timestep monitor (its to_df() calls are part of the system) in a share of every profile
     unit = pick('unit', {'seconds': 60, 'custom': 20, 'minutes': 10, 'hours': 10})
     if unit == 'custom':
         unit = rng.randint(2, 7)
@@ -210,7 +213,9 @@ def gen(seed, profile='general', big=False):
                                    'compute_bandwidth': rng.choice([1, 2, 5])}
         else:
             machines['m%d' % i] = {'flops': f0, 'compute_bandwidth': b0}
-    if rng.random() < P.get('frac_speed', 0.06):
+    # (not under the real monitor: very slow machines stretch the serial bound to many hundreds of timesteps, and the
+    # real monitor's per-step table concatenation makes such runs cost tens of seconds)
+    if monitor == 'light' and rng.random() < P.get('frac_speed', 0.06):
         # machine speeds / bandwidths that are not whole numbers
         for m_ in machines.values():
             m_['flops'] = rng.choice([0.1, 0.2, 0.4, 2.5])
@@ -249,9 +254,6 @@ def gen(seed, profile='general', big=False):
     obs = []
     t = rng.choice([0, 0, 1, 3])
     late_exact = False
-    monitor = P.get('monitor', 'light')
-    if monitor == 'light' and rng.random() < P.get('real_share', 0.07):
-        monitor = 'real'        # the real per-timestep monitor (its to_df() calls are part of the system) in a share of every profile
     if monitor == 'light' and rng.random() < P.get('late', 0.025):
         t = rng.choice([990, 993, 996, 998, 999, 1000])      # the run crosses t = 1000
         late_exact = rng.random() < 0.5                      # ... the first observation ending exactly there
